@@ -22,7 +22,7 @@ func dryLoad(dir string, w *Workload) ast.Schemas {
 	CurrentDesc.Store("dry-load " + w.Name)
 	ex := Simulate(simrt.Schedule{Default: simrt.Canonical}, nil, pipelineMaxTicks, func() error {
 		resetGlobals()
-		p, err := codegen.PipelineFromFile(cfg, codegen.Parameters(w.Params))
+		p, err := codegen.PipelineFromFile(cfg, codegen.Parameters(w.ExtraParams()))
 		if err != nil {
 			return err
 		}
